@@ -33,10 +33,20 @@ Proof. destruct r; reflexivity. Qed.
 
 Lemma py_slice_to_pos {A} (n : Z) (l : list A) :
   (0 <= n)%Z -> py_slice_to n l = firstn (Z.to_nat n) l.
-Proof. intros H. unfold py_slice_to. apply Z.leb_le in H. rewrite H. reflexivity. Qed.
+Proof.
+  intros H. unfold py_slice_to. pose proof H as H'. apply Z.leb_le in H'. rewrite H'.
+  destruct (Z.le_ge_cases n (Z.of_nat (length l))) as [L|L].
+  - rewrite Z.min_l by exact L. reflexivity.
+  - rewrite Z.min_r by lia. rewrite Nat2Z.id, firstn_all. symmetry. apply firstn_all2. lia.
+Qed.
 Lemma py_slice_from_pos {A} (n : Z) (l : list A) :
   (0 <= n)%Z -> py_slice_from n l = skipn (Z.to_nat n) l.
-Proof. intros H. unfold py_slice_from. apply Z.leb_le in H. rewrite H. reflexivity. Qed.
+Proof.
+  intros H. unfold py_slice_from. pose proof H as H'. apply Z.leb_le in H'. rewrite H'.
+  destruct (Z.le_ge_cases n (Z.of_nat (length l))) as [L|L].
+  - rewrite Z.min_l by exact L. reflexivity.
+  - rewrite Z.min_r by lia. rewrite Nat2Z.id, skipn_all. symmetry. apply skipn_all2. lia.
+Qed.
 
 Lemma py_int_err base raw e : py_int base raw = Err e -> e = ValueError.
 Proof.
